@@ -97,9 +97,11 @@ func agentHeaders(b backend, reqID string) http.Header {
 	return h
 }
 
-func setup(r *aerig.Rig, n int) error {
+func setup(r *aerig.Rig, n int) error { return setupSet(r, backends[:n]) }
+
+func setupSet(r *aerig.Rig, bs []backend) error {
 	r.Fake.Reset()
-	for _, b := range backends[:n] {
+	for _, b := range bs {
 		body, _ := json.Marshal(map[string]any{"id": b.id, "backendUser": b.agent, "endUser": b.user, "pathPrefixes": []string{b.prefix}})
 		if resp := r.Do("api", "POST", "/api/backends", nil, body, admin, 10*time.Second); resp.Err != nil || resp.Status != 200 {
 			return fmt.Errorf("cannot register backend: %v %d", resp.Err, resp.Status)
@@ -122,23 +124,41 @@ type Req struct {
 	RespSize  int    `json:"response_serialised_size"` // exact size of the posted response bytes
 	AgentMs   int    `json:"agent_delay_ms"`
 	Order     int    `json:"respond_order"`
+	Query     string `json:"extra_query,omitempty"` // appended to the request target: parameters a canonicalising hop would rewrite
 }
 
 type RelayCase struct {
 	Backends int   `json:"backends"`
 	Reqs     []Req `json:"reqs"`
+	LongIDs  bool  `json:"long_backend_ids,omitempty"` // backend ids of more than 400 bytes (datastore key names may be up to 1500 bytes long)
+}
+
+// backendSet returns the backends of a case.
+func backendSet(long bool) []backend {
+	bs := append([]backend(nil), backends...)
+	if long {
+		for i := range bs {
+			bs[i].id += "-" + strings.Repeat("projects/verif/locations/us-central1/instances/", 9)[:400]
+		}
+	}
+	return bs
+}
+
+func targetOf(b backend, tok, extra string) string {
+	return fmt.Sprintf("%s/%s?tok=%s%s", b.prefix, tok, tok, extra)
 }
 
 var bigSizes = []int{999999, 1000000, 1000001, 1999999, 2000000, 2000001, 3500000}
 
 func genRelay(t *rapid.T) RelayCase {
-	c := RelayCase{Backends: rapid.IntRange(1, 3).Draw(t, "backends")}
+	c := RelayCase{Backends: rapid.IntRange(1, 3).Draw(t, "backends"), LongIDs: rapid.IntRange(0, 3).Draw(t, "longIDs") == 0}
 	n := rapid.IntRange(1, 8).Draw(t, "n")
 	big := 0
 	for i := 0; i < n; i++ {
 		q := Req{Backend: rapid.IntRange(0, c.Backends-1).Draw(t, "backend"), Method: rapid.SampledFrom([]string{"POST", "POST", "GET", "PUT"}).Draw(t, "method"),
 			AgentMs: rapid.SampledFrom([]int{0, 0, 5, 50}).Draw(t, "agentMs"), Order: rapid.IntRange(0, 100).Draw(t, "order")}
 		q.RespSize = rapid.SampledFrom([]int{100, 100, 1000, 50000}).Draw(t, "respSmall")
+		q.Query = rapid.SampledFrom([]string{"", "", "", "&b=2&a=1", "&q=a%20b", "&debug", "&x=a,b/c:d", "&a=1&a=0&", "&%7e=%7E"}).Draw(t, "query")
 		if big < 2 && rapid.IntRange(0, 3).Draw(t, "big") == 0 {
 			big++
 			if q.Method != "GET" && rapid.Bool().Draw(t, "bigReq") {
@@ -181,20 +201,28 @@ type inflight struct {
 var overhead = map[string]int{} // serialised request size minus body size, per method and digits of the body length
 
 func clientRequest(r *aerig.Rig, b backend, method, tok string, body []byte) *aerig.Response {
+	return clientRequestQ(r, b, method, tok, "", body)
+}
+
+func clientRequestQ(r *aerig.Rig, b backend, method, tok, extra string, body []byte) *aerig.Response {
 	hdr := http.Header{"X-Client-Token": {tok}, "Content-Type": {"application/octet-stream"}}
 	user := b.user
 	if user == "allUsers" {
 		user = "u9@example.com"
 	}
-	return r.Do("default", method, fmt.Sprintf("%s/%s?tok=%s", b.prefix, tok, tok), hdr, body, aerig.Identity{Email: user}, 60*time.Second)
+	return r.Do("default", method, targetOf(b, tok, extra), hdr, body, aerig.Identity{Email: user}, 60*time.Second)
 }
 
 func runRelay(t vh.TB, c *RelayCase) vh.Outcome {
 	r := getRig(t)
 	o := vh.Outcome{}
-	if err := setup(r, c.Backends); err != nil {
+	backends := backendSet(c.LongIDs) // (shadows the package-level set for this case)
+	if err := setupSet(r, backends[:c.Backends]); err != nil {
 		o.Inconclusive = err.Error()
 		return o
+	}
+	if c.LongIDs {
+		o.Classes = append(o.Classes, "backend-ids-longer-than-400-bytes")
 	}
 	rigMu.Lock()
 	runCtr++
@@ -208,7 +236,7 @@ func runRelay(t vh.TB, c *RelayCase) vh.Outcome {
 		if q.Method != "GET" {
 			size := 64
 			if q.ReqTarget > 0 {
-				key := fmt.Sprintf("%s/%d", q.Method, len(fmt.Sprint(q.ReqTarget)))
+				key := fmt.Sprintf("%s/%d/%d", q.Method, len(fmt.Sprint(q.ReqTarget)), len(q.Query))
 				ov, ok := overhead[key]
 				if !ok {
 					ov = 420 // first guess; corrected from what is fetched
@@ -227,7 +255,7 @@ func runRelay(t vh.TB, c *RelayCase) vh.Outcome {
 	}
 	for _, f := range fl {
 		f := f
-		go func() { f.done <- clientRequest(r, backends[f.q.Backend], f.q.Method, f.tok, f.body) }()
+		go func() { f.done <- clientRequestQ(r, backends[f.q.Backend], f.q.Method, f.tok, f.q.Query, f.body) }()
 	}
 	// agents: list until every request of the backend was seen, fetch, then respond in the generated order
 	byRid := map[string]*inflight{}
@@ -283,7 +311,7 @@ func runRelay(t vh.TB, c *RelayCase) vh.Outcome {
 				return o
 			}
 			got, _ := io.ReadAll(req.Body)
-			wantURI := fmt.Sprintf("%s/%s?tok=%s", b.prefix, f.tok, f.tok)
+			wantURI := targetOf(b, f.tok, f.q.Query)
 			if req.Method != f.q.Method || req.RequestURI != wantURI || !bytes.Equal(got, f.body) || req.Header.Get("Content-Type") != "application/octet-stream" {
 				o.Err = fmt.Errorf("fetched request %s differs from what client %s sent: %s %s with %d body bytes (hash %s) vs %s %s with %d body bytes (hash %s); serialised size %d",
 					rid, f.tok, req.Method, req.RequestURI, len(got), vh.HashBytes(got), f.q.Method, wantURI, len(f.body), vh.HashBytes(f.body), len(resp.Body))
@@ -297,7 +325,7 @@ func runRelay(t vh.TB, c *RelayCase) vh.Outcome {
 			f.fetched = resp.Body
 			byRid[rid] = f
 			if f.q.ReqTarget > 0 {
-				key := fmt.Sprintf("%s/%d", f.q.Method, len(fmt.Sprint(f.q.ReqTarget)))
+				key := fmt.Sprintf("%s/%d/%d", f.q.Method, len(fmt.Sprint(f.q.ReqTarget)), len(f.q.Query))
 				overhead[key] = len(resp.Body) - len(f.body)
 				o.Classes = append(o.Classes, sizeClass("request", len(resp.Body)))
 			}
